@@ -432,8 +432,8 @@ class W3PerDocReader(base.PerDocumentReader):
             return default
 
         lbyte = reader[docnum]
-        if lbyte:
-            return byte_to_length(lbyte)
+        # (a zero byte is a length of zero, not a missing value)
+        return byte_to_length(lbyte)
 
     def field_length(self, fieldname):
         return self._segment._fieldlengths.get(fieldname, 0)
